@@ -112,6 +112,43 @@ def replay(obname, params, values):
     return out, res.obs
 
 
+def _cvc5_verdict(c, neg):
+    """second opinion on one deciding query: the path condition plus NOT clause, exported as SMT-LIB2, decided by cvc5"""
+    try:
+        import cvc5
+    except ImportError:
+        return 'unavailable'
+    c.solver.push()
+    try:
+        c.solver.add(neg)
+        text = c.solver.to_smt2()
+    finally:
+        c.solver.pop()
+    try:
+        tm = cvc5.TermManager()
+        slv = cvc5.Solver(tm)
+        slv.setOption('tlimit-per', '20000')
+        prs = cvc5.InputParser(slv)
+        prs.setStringInput(cvc5.InputLanguage.SMT_LIB_2_6, '(set-logic ALL)\n' + text, 'q')
+        sm = prs.getSymbolManager()
+        last = ''
+        while True:
+            cmd = prs.nextCommand()
+            if cmd.isNull():
+                break
+            r = str(cmd.invoke(slv, sm)).strip()
+            if r:
+                last = r
+        return last if last in ('sat', 'unsat') else 'unknown'
+    except Exception as e:
+        return 'error: %s' % str(e)[:80]
+
+
+def _xcheck_due(n, tier):
+    """which deciding queries get a cvc5 second opinion: the first two of every task, then every 50th (quick) / 10th (thorough)"""
+    return n <= 2 or n % (10 if tier == 'thorough' else 50) == 0
+
+
 class _Budget(BaseException):
     pass
 
@@ -130,7 +167,7 @@ def run_task(args):
     signal.signal(signal.SIGALRM, _on_alarm)
     signal.alarm(TASK_BUDGET_S.get(tier, 900))
     out = dict(obligation=obname, params=params, paths=0, queries=0, solver_s=0.0, nontrivial=0,
-               decided=0, violations=[], known=[], spurious=[], inconclusive=None, samples=[],
+               decided=0, violations=[], known=[], spurious=[], inconclusive=None, samples=[], xchecked=0, xagree=0, xunknown=0, xdisagree=[],
                functions={}, wall_s=0.0, clauses=[])
     try:
         ob = registry.load_all()[obname]
@@ -172,6 +209,15 @@ def run_task(args):
                 out['decided'] += 1
                 if not symb or not c.sat(z3.Not(z3.And(*symb))):
                     todo = []
+                    if symb and _xcheck_due(out['decided'], tier) and not os.environ.get('VERIF_NO_XCHECK'):
+                        v = _cvc5_verdict(c, z3.Not(z3.And(*symb)))
+                        out['xchecked'] += 1
+                        if v == 'unsat':
+                            out['xagree'] += 1
+                        elif v == 'sat':
+                            out['xdisagree'].append(sorted(res.clauses))
+                        else:
+                            out['xunknown'] += 1
             for cname, cl in todo:
                 if isinstance(cl, bool):
                     if cl:
@@ -293,6 +339,7 @@ def main(argv=None):
     viol = [v for r in results for v in r['violations']]
     spur = [v for r in results for v in r['spurious']]
     inconc = [(r['obligation'], r['params'], r['inconclusive']) for r in results if r['inconclusive']]
+    inconc += [(r['obligation'], r['params'], 'cvc5 disagrees with z3 (sat vs unsat) on a deciding query over clauses %s' % d) for r in results for d in r['xdisagree']]
     known = {}
     for r in results:
         for k in r['known']:
@@ -374,6 +421,9 @@ def main(argv=None):
                 solver_queries=sum(d['queries'] for d in per_ob.values()),
                 solver_seconds=round(sum(d['solver_s'] for d in per_ob.values()), 2),
                 solver='z3 %s' % z3.get_version_string(),
+                cross_solver=dict(solver='cvc5 (python wheel)', policy='first two deciding queries of every task, then every 50th (quick) / 10th (thorough)',
+                                  queries_rechecked=sum(r['xchecked'] for r in results), agree=sum(r['xagree'] for r in results),
+                                  unknown_or_error=sum(r['xunknown'] for r in results), disagree=sum(len(r['xdisagree']) for r in results)),
                 obligations=len(per_ob),
                 discharged=sum(1 for n, d in per_ob.items() if not d['violations'] and not any(i[0] == n for i in inconc)),
                 per_obligation={n: dict(doc=registry.OBLIGATIONS[n].doc, bounds=registry.OBLIGATIONS[n].bounds,
